@@ -1081,10 +1081,18 @@ theorem layRData_pos {H : Nat × Nat → Prop} {b : Bytes} {p q : Nat} (d : RDat
 def _root_.HickoryVerif.Wire.Record.fq (r : Record) : Record :=
   { r with name := { r.name with fqdn := true }, rdata := r.rdata.fq }
 
-/-- what the round-trip proof needs of a record (not OPT, not a meta type) -/
+/-- a covered RDATA variant never belongs to a meta type (ANY / AXFR / IXFR), which `RData::read` refuses -/
+theorem typeOK_not_meta {d : RData} {t : Nat} (hp : d.proved = true) (h : d.typeOK t) :
+    ¬ (t = 255 ∨ t = 252 ∨ t = 251) := by
+  cases d <;> first | (simp [RData.proved] at hp; done) | skip
+  all_goals simp only [RData.typeOK, UnknownType, List.mem_cons, List.not_mem_nil, or_false, not_or] at h
+  all_goals omega
+
+/-- what the round-trip proof needs of a record (not OPT; empty RDATA — `Update0` — of any type, or a
+covered variant of its own type) -/
 structure RecWF (r : Record) : Prop where
   name : r.name.WF
-  rtype : r.rtype < 65536 ∧ r.rtype ≠ T_OPT ∧ ¬ (r.rtype = 255 ∨ r.rtype = 252 ∨ r.rtype = 251)
+  rtype : r.rtype < 65536 ∧ r.rtype ≠ T_OPT
   cls : r.cls < 65536
   ttl : r.ttl < 4294967296
   data : r.rdata = .update0 r.rtype ∨
@@ -1100,7 +1108,7 @@ theorem reads_record {H : Nat × Nat → Prop} {opq : Nat → Rd Bytes} {buf : B
   refine Reads.bind (reads_name_of_lay l1 hwf.name) ?_
   refine Reads.bind (reads_u16_of_seg l2 hwf.rtype.1) ?_
   have hcls : readClass { r.name with fqdn := true } r.rtype = Rd.readU16 := by
-    unfold readClass; rw [if_neg hwf.rtype.2.1]
+    unfold readClass; rw [if_neg hwf.rtype.2]
   rw [hcls]
   refine Reads.bind (reads_u16_of_seg l3 hwf.cls) ?_
   refine Reads.bind (reads_u32_of_seg l4 hwf.ttl) ?_
@@ -1131,7 +1139,7 @@ theorem reads_record {H : Nat × Nat → Prop} {opq : Nat → Rd Bytes} {buf : B
         simp only [List.length_take]; omega
       rw [this]
       exact hL.stable hbody (agreeOn_take _ (Nat.le_refl _) hb.2)
-    have hrd := reads_readRData (opq := opq) hwf.rtype.2.2 (by simp only [List.length_take]; omega)
+    have hrd := reads_readRData (opq := opq) (typeOK_not_meta hpv hty) (by simp only [List.length_take]; omega)
       (reads_rdataBody r.rdata hpv hty hnw htr)
     refine Reads.bind (Reads.splitOff hb.2 hrd) ?_
     exact Reads.pure' _ _ (by simp [Record.fq])
@@ -1233,7 +1241,7 @@ theorem reads_records {H : Nat × Nat → Prop} {opq : Nat → Rd Bytes} {buf : 
     · have hop := hup hu
       rw [if_neg (by intro hc; exact hc.1 hop)]
       simp only [Option.isSome_none, Bool.false_eq_true, ↓reduceIte]
-      rw [if_neg (by intro hc; rcases hc.2 with h1 | h1 | h1; exact hr.rtype.2.1 h1; exact hs1 h1; exact hs2 h1)]
+      rw [if_neg (by intro hc; rcases hc.2 with h1 | h1 | h1; exact hr.rtype.2 h1; exact hs1 h1; exact hs2 h1)]
       cases isAdd with
       | false => simpa using ih'
       | true =>
@@ -1245,11 +1253,11 @@ theorem reads_records {H : Nat × Nat → Prop} {opq : Nat → Rd Bytes} {buf : 
             cases hdd : r.rdata <;> rw [hdd] at hu h1 <;> simp [RData.isUpdate, RData.proved] at hu h1
         rw [hd]
         simp only
-        rw [if_neg hr.rtype.2.1]
+        rw [if_neg hr.rtype.2]
         exact ih'
     · rw [if_neg (by intro hc; exact hu hc.2.2)]
       simp only [Option.isSome_none, Bool.false_eq_true, ↓reduceIte]
-      rw [if_neg (by intro hc; rcases hc.2 with h1 | h1 | h1; exact hr.rtype.2.1 h1; exact hs1 h1; exact hs2 h1)]
+      rw [if_neg (by intro hc; rcases hc.2 with h1 | h1 | h1; exact hr.rtype.2 h1; exact hs1 h1; exact hs2 h1)]
       cases isAdd with
       | false => simpa using ih'
       | true =>
